@@ -17,8 +17,9 @@ What is proved (about the model, for every bisection step satisfying `StepSpec` 
                      `hist_ge`; plus `bound ≤ B0` along the run), for all interleavings and stale loads
   min_by_leftmost    rayon's `min_by` = `reduce_with` over ANY reduction tree returns the same element as the
                      left fold in axis order: the leftmost minimum
-  subStep_boundMono  the real step model obeys `BoundMono` by C03's `ok_flow_le_bound` / `ok_bound_irrelevant`,
-                     GIVEN totality of the step model (`subStep_total_statement`, not proved)
+  subStep_boundMono  the real step model obeys `BoundMono` (C03: `ok_flow_le_bound`, `ok_bound_irrelevant`,
+                     `sub_step_total`), so `par_eq_seq_subStep` / `jobs_disjoint_subStep` carry no assumption
+                     about the step
 
 Not proved, sampled by the harness: the real rayon scheduler (work stealing, nested pools) and `UnsafeSlice`
 under the hardware memory model.
@@ -102,25 +103,25 @@ theorem min_by_leftmost (t : RTree) (hpos : ∀ y ∈ t.flatten, 0 < balanceDen 
 
 /-! ### the real step model -/
 
-/-- totality of `Tbx.InertialFlow.subStep` on well-formed jobs (see `Tbx.Chipper.StepTotal`): not proved -/
-def subStep_total_statement : Prop :=
-  ∀ (coord : Nat → Coord) (n : Nat) (kOf : Nat → Nat), (∀ s, 2 ≤ s → 1 ≤ kOf s ∧ 2 * kOf s ≤ s) →
-    StepTotal n (fun e ids a k β => subStep e ids coord a k β) kOf
+/-- the real step model obeys `BoundMono` (C03: `ok_flow_le_bound`, `ok_bound_irrelevant`, `sub_step_total`) -/
+theorem subStep_boundMono (coord : Nat → Coord) (n : Nat) (kOf : Nat → Nat)
+    (hk : ∀ s, 2 ≤ s → 1 ≤ kOf s ∧ 2 * kOf s ≤ s) :
+    BoundMono n (fun e ids a k β => subStep e ids coord a k β) kOf :=
+  Tbx.Chipper.subStep_boundMono' coord n kOf hk
 
-/-- `par_eq_seq` for the real step model: `StepSpec` is proved from C03 (`subStep_stepSpec`), `BoundMono` from
-    C03's `ok_flow_le_bound` / `ok_bound_irrelevant` given totality -/
+/-- `par_eq_seq` for the real step model: `StepSpec` and `BoundMono` are proved from C03, so no assumption
+    about the step is left -/
 theorem par_eq_seq_subStep (coord : Nat → Coord) (cfg : Cfg) (edges : List Chipper.Edge) (n : Nat)
     (hm : 1 ≤ cfg.m) (hn : 2 ≤ n) (hsrc : ∀ e ∈ edges, e.1 < n)
     (hsmall : 2 * edges.length + 6 < Tbx.Flow.INV)
     (hk : ∀ s, 2 ≤ s → 1 ≤ cfg.kOf s ∧ 2 * cfg.kOf s ≤ s)
-    (htotal : StepTotal n (fun e ids a k β => subStep e ids coord a k β) cfg.kOf)
     (sched : Nat → Nat → Job → Nat → Int)
     (hadm : ∀ lvl idx job, JobOK n job →
       ObsAdmissible (fun e ids a k β => subStep e ids coord a k β) (cfg.kOf job.ids.length) job (sched lvl idx job)) :
     parChipper (fun e ids a k β => subStep e ids coord a k β) cfg sched edges n =
       chipper (fun e ids a k β => subStep e ids coord a k β) cfg edges n :=
   par_eq_seq _ cfg edges n hm hn hsrc hsmall (subStep_stepSpec coord n cfg.kOf hk)
-    (subStep_boundMono coord n cfg.kOf hk htotal) sched hadm
+    (subStep_boundMono coord n cfg.kOf hk) sched hadm
 
 /-- `jobs_disjoint` for the real step model (no assumption left beyond the input conditions) -/
 theorem jobs_disjoint_subStep (coord : Nat → Coord) (cfg : Cfg) (edges : List Chipper.Edge) (n : Nat)
